@@ -118,7 +118,7 @@ func obsKey(o *rtapi.Obs) string {
 	c := *o
 	c.Ticks, c.Diverged = 0, false
 	c.EvalRepeat, c.EvalCalls = "", 0 // census hook: loader path only
-	c.Pool = nil // the pool monitor only exists in the loader path
+	c.Pool = nil                      // the pool monitor only exists in the loader path
 	b, _ := json.Marshal(&c)
 	return string(b)
 }
